@@ -15,8 +15,11 @@ _COLD = None
 def leaf_class(inst):
     global _LEAF
     if _LEAF is None:
-        _LEAF = load_table('leaf_classes.json')
-    p = inst['path']
+        from .mir import norm_path
+        t = load_table('leaf_classes.json')
+        _LEAF = {'exact': {norm_path(k): v for k, v in t['exact'].items()}, 'prefix': {norm_path(k): v for k, v in t['prefix'].items()}}
+    from .mir import norm_path
+    p = norm_path(inst['path'])
     if p in _LEAF['exact']:
         return _LEAF['exact'][p]
     for pre, c in _LEAF['prefix'].items():
